@@ -22,6 +22,7 @@ import (
 	"github.com/DrmagicE/gmqtt"
 	"github.com/DrmagicE/gmqtt/config"
 	"github.com/DrmagicE/gmqtt/persistence/queue"
+	"github.com/DrmagicE/gmqtt/persistence/subscription"
 	"github.com/DrmagicE/gmqtt/pkg/packets"
 	"github.com/DrmagicE/gmqtt/server"
 
@@ -533,7 +534,7 @@ func (r *Run) step(s *Step) {
 		for _, a := range as {
 			r.ping(&Step{K: a.k})
 		}
-		r.Rec.Log(inproc.Event{"e": "quiet"})
+		r.quiet()
 	case "raw":
 		if a := r.actor(s.K); a != nil {
 			b, _ := hex.DecodeString(s.Hex)
@@ -1301,7 +1302,35 @@ func (r *Run) barrier() {
 	if r.TO.Settle > 0 {
 		time.Sleep(r.TO.Settle)
 	}
+	r.quiet()
+}
+
+// quiet logs the quiescence point and, behind it, the broker's own view of its state (subscription store, connected clients,
+// stored sessions) through its public services: the specification's state must agree with it (ViewOK in Broker.tla).
+func (r *Run) quiet() {
 	r.Rec.Log(inproc.Event{"e": "quiet"})
+	defer func() {
+		if x := recover(); x != nil {
+			r.Rec.Log(inproc.Event{"e": "note", "text": fmt.Sprintf("view: panic in a service call: %v", x)})
+		}
+	}()
+	srv := r.B.Srv
+	subs := []map[string]interface{}{}
+	srv.SubscriptionService().Iterate(func(clientID string, sub *gmqtt.Subscription) bool {
+		subs = append(subs, map[string]interface{}{"c": clientID, "n": sub.GetFullTopicName(), "q": int(sub.QoS)})
+		return true
+	}, subscription.IterationOptions{Type: subscription.TypeAll})
+	online := []string{}
+	srv.ClientService().IterateClient(func(c server.Client) bool {
+		online = append(online, c.ClientOptions().ClientID) // (srv.clients holds the registered connections only)
+		return true
+	})
+	sessions := []string{}
+	_ = srv.ClientService().IterateSession(func(s *gmqtt.Session) bool {
+		sessions = append(sessions, s.ClientID)
+		return true
+	})
+	r.Rec.Log(inproc.Event{"e": "view", "subs": subs, "online": online, "sessions": sessions})
 }
 
 // WriteTrace appends the events as ndjson lines.
